@@ -18,6 +18,10 @@ ALPHA = ["a", "b", " ", "\n", "*", "_", "#"]
 PROFILE = {"hyperlink": 0.0, "vmerge": 0.0, "point_comment": 0.0}
 PROFILES = {"default": PROFILE,
             "redlined": dict(PROFILE, **{"del": 0.4, "blocks": (1, 3), "runs": (3, 7)}, subst=0.15, split_identical=0.3, table=0.1),
+            # long paragraphs full of pending deletions, several edits in one paragraph that are found only in the
+            # accepted view, most of them reducing to an insertion after context trimming
+            "bridges": dict(PROFILE, **{"del": 0.45, "blocks": (1, 2), "runs": (6, 10)}, ins=0.0, subst=0.05, table=0.0, comment=0.0,
+                            split_identical=0.15, fmt=0.2, header=0.0, footer=0.0),
             "boundaries": dict(PROFILE, split_identical=0.5, tab=0.3, br=0.2, fmt=0.6, **{"del": 0.3}, subst=0.15, table=0.35,
                                opaque=0.15, empty_run=0.1)}
 
@@ -151,7 +155,14 @@ def work(case):
     texts = engine_run.texts_of(data)
     edits = case.get("edits")
     if edits is None:
-        edits = editgen.gen_batch(rng, case["doc"], texts, rng.randint(1, 4), editgen.KINDS_C02, allow_collisions=True)
+        if case.get("stream") == "bridges":
+            edits = editgen.gen_batch(rng, case["doc"], texts, rng.randint(2, 3), ["extend", "prefix", "shared", "shared", "replace"],
+                                      allow_collisions=True, same_para_bias=1.0)
+        else:
+            edits = editgen.gen_batch(rng, case["doc"], texts, rng.randint(1, 4), editgen.KINDS_C02, allow_collisions=True)
+            if rng.random() < 0.4:
+                # a target quoted with the bold / italic markers of a formatted run (text put behind / before the markers)
+                edits += editgen.gen_marked_edit(rng, case["doc"], texts, avoid_pi={e["pi"] for e in edits})
     runs = []
     hz = None
     for order in (orders_of(rng, edits) if edits else []):
@@ -196,7 +207,8 @@ def run(tier, seed, driver_ok):
     tr = run_trim(tier, seed, driver_ok)
     out = doccheck.run_doc_check(
         "C02", tier, seed, driver_ok, n_quick=320, n_thorough=4000,
-        profiles=[("default", PROFILES["default"], 1), ("boundaries", PROFILES["boundaries"], 2), ("redlined", PROFILES["redlined"], 2)],
+        profiles=[("default", PROFILES["default"], 1), ("boundaries", PROFILES["boundaries"], 2), ("redlined", PROFILES["redlined"], 2),
+                  ("bridges", PROFILES["bridges"], 2)],
         work=work, oracle=oracle, classify=classify, nontrivial=nontrivial,
         rule="(b) seeded generated documents x batches of 1-4 exact, unique, non-overlapping single-paragraph targets "
              "(replace / delete / extend / prefix / shared prefix-suffix), every order of the batch for <= 3 edits; "
